@@ -3,6 +3,7 @@ package main
 import (
 	"fmt"
 	"go/types"
+	"sort"
 	"strings"
 
 	"golang.org/x/tools/go/ssa"
@@ -117,7 +118,7 @@ func runC04(r *Run, p *Prog) {
 		return
 	}
 	// the dispatch entry: the function reachable from HandleMessage that decodes the request and invokes a dispatcher
-	hm := dispatchEntry(p, ro)
+	hm := dispatchView(p, ro)
 	if hm == nil {
 		r.Unresolved("T1", "dispatch entry (function reachable from HandleMessage that decodes the request and invokes VarlinkDispatch)")
 		return
@@ -434,17 +435,52 @@ func runC04(r *Run, p *Prog) {
 }
 
 func dispatchEntry(p *Prog, ro *Roles) *ssa.Function {
+	if ro.dispEntryDone {
+		return ro.dispEntry
+	}
+	ro.dispEntryDone = true
+	// candidates: functions reachable from HandleMessage whose view (non-writing helpers inlined) decodes the request
+	// and invokes a dispatcher; the entry is the innermost of them (the one every caller has to go through)
+	var cands []*ssa.Function
 	for f := range ro.CG.Reach([]*ssa.Function{ro.Handle}, false) {
-		if fnPkgPath(f) != pkgVarlink || len(decodeSitesDeep(p, f)) == 0 {
+		if fnPkgPath(f) != pkgVarlink || f.Parent() != nil || len(f.Blocks) == 0 {
 			continue
 		}
-		for _, cs := range callsIn(f, false) {
+		v := p.Inlined(f, ro.keepsWriting)
+		if len(decodeSites(v)) == 0 {
+			continue
+		}
+		for _, cs := range callsIn(v, false) {
 			if cs.Common.IsInvoke() && cs.Common.Method.Name() == "VarlinkDispatch" {
-				return f
+				cands = appendFn(cands, f)
 			}
 		}
 	}
-	return nil
+	sort.Slice(cands, func(i, j int) bool { return cands[i].Pos() < cands[j].Pos() })
+	for _, f := range cands {
+		inner := true
+		for _, g := range cands {
+			if g != f && ro.CG.Reach([]*ssa.Function{f}, false)[g] {
+				inner = false
+			}
+		}
+		if inner {
+			ro.dispEntry = f
+		}
+	}
+	return ro.dispEntry
+}
+
+// dispatchView: the dispatch entry with its non-writing helpers inlined (decode helper, table lookup helper, ...); the
+// functions that send replies stay calls, so that deliveries are counted level by level.
+func dispatchView(p *Prog, ro *Roles) *ssa.Function {
+	e := dispatchEntry(p, ro)
+	if e == nil {
+		return nil
+	}
+	v := p.Inlined(e, ro.keepsWriting)
+	ro.CG.AddView(v)
+	return v
 }
 
 // isDispatchTarget: t is HandleMessage or the dispatch entry it delegates to.
